@@ -147,10 +147,12 @@ def do_check(pid, tier):
     known_hits = collections.Counter()
     new = []
     seen_sig = set()
+    known_examples = {}
     for e in merged["violations"]:
         kf = known_mod.match(pid, e["signature"])
         if kf is not None:
             known_hits[kf["id"]] += 1
+            known_examples.setdefault(kf["id"], e)
             continue
         key = json.dumps(e["signature"], sort_keys=True)
         if key in seen_sig:
@@ -175,6 +177,16 @@ def do_check(pid, tier):
         else:
             merged["harness"].append({"i": e["i"], "error": "minimised replay did not reproduce in a fresh "
                                       f"interpreter (exit {code})", "tb": outp[-800:]})
+    if os.environ.get("VERIF_SAVE_KNOWN"):
+        # documentation only: a minimised, replayable example of every known finding that was hit
+        for kid, e in known_examples.items():
+            small, v, ev, info = minimise(camp, e, 250)
+            if known_mod.match(pid, camp.signature(v, small)) is None:
+                continue
+            os.environ["VERIF_REPLAY_DIR"] = os.path.join(VERIF, "findings")
+            pth = write_replay(camp, pid, e, small, v, ev, info, tier, verif_seed)
+            os.rename(pth, os.path.join(VERIF, "findings", kid + ".json"))
+            del os.environ["VERIF_REPLAY_DIR"]
     wall = time.time() - t0
     extra = {}
     if pre:
